@@ -68,7 +68,10 @@ fn mark_tail_calls(
     let tail_name_str = tail_ident.as_symbol().unwrap_or_default();
     let new_tail = if tail_ident.eq(&name) {
         let ret_tail = TulispObject::nil().append(tail.cdr()?)?.to_owned();
-        list!(,ctx.intern("list")
+        // The head is the function itself, not the symbol `list`: the
+        // symbol may be shadowed by a variable of the function being defined.
+        let eval_each: Rc<crate::value::TulispFn> = Rc::new(|ctx, args| ctx.eval_each(args));
+        list!(,TulispValue::Func(eval_each).into_ref(None)
               ,TulispValue::Bounce.into_ref(None)
               ,@ret_tail)?
     } else if tail_name_str == "progn" {
